@@ -11,7 +11,6 @@ package simrt
 import (
 	"fmt"
 	"hash/fnv"
-	"runtime"
 	"runtime/debug"
 	"sort"
 	"strings"
@@ -54,6 +53,7 @@ type Task struct {
 	dead  bool // node crashed: never released again
 	lockK any
 	gid   int64
+	quiet int
 	cond  func() bool // stWaiting: runnable again once cond() is true (evaluated on the driver)
 }
 
@@ -86,49 +86,54 @@ type Config struct {
 	StickyPct int           // probability (0..100) to keep running the same task at a yield
 	LockYield int           // percentage (0..100) of lock acquisitions that are scheduling points
 	Verbose   bool          // keep a textual event log
+	SpinSteps int           // consecutive non-idle steps after which the clock is advanced by force (0: 3000)
+	Profile   bool          // count parks by reason into Counters
 	NoPreempt bool          // never preempt at lock yields (operation-granularity scheduling)
 }
 
 // Sim is one simulated execution.
 type Sim struct {
-	mu           sync.Mutex
-	byGid        map[int64]*Task
-	all          []*Task
-	nextID       int64
-	cur          *Task
-	last         *Task
-	wake         chan struct{}
-	kill         chan struct{}
-	killedF      atomic.Bool
-	Dec          *Decider
-	cfg          Config
-	Steps        int
-	Preempt      int // steps at which a different task than the previous one was chosen although it was runnable
-	StepLimitHit bool
-	HorizonHit   bool
-	Deadlock     bool
-	lockWaiters  map[any][]*Task
-	events       []*Event
-	evSeq        int64
-	stalled      map[int]time.Time
-	crashed      map[int]bool
-	Panics       []PanicInfo
-	OnPanic      func(p PanicInfo) // called on the panicking goroutine, before the node is marked crashed
-	StepHook     func()            // called on the driver before each choice (fault injection)
-	AfterStep    func()            // called on the driver after each step settles (online invariants)
-	stopReq      atomic.Bool
-	finished     atomic.Bool
-	tickers      []*time.Ticker
-	Idles        int
-	start        time.Time
-	h            uint64
-	logBuf       []string
-	Counters     map[string]int
-	fsHits       int
-	CrashAtFS    int // crash the calling node at the N-th FS point (1-based; 0: never)
-	FSCrashed    string
-	FSNames      []string
-	RecordFS     bool
+	mu             sync.Mutex
+	byGid          map[int64]*Task
+	all            []*Task
+	nextID         int64
+	cur            *Task
+	last           *Task
+	wake           chan struct{}
+	kill           chan struct{}
+	killedF        atomic.Bool
+	Dec            *Decider
+	cfg            Config
+	Steps          int
+	Preempt        int // steps at which a different task than the previous one was chosen although it was runnable
+	StepLimitHit   bool
+	HorizonHit     bool
+	Deadlock       bool
+	lockWaiters    map[any][]*Task
+	events         []*Event
+	evSeq          int64
+	stalled        map[int]time.Time
+	crashed        map[int]bool
+	Panics         []PanicInfo
+	OnPanic        func(p PanicInfo) // called on the panicking goroutine, before the node is marked crashed
+	StepHook       func()            // called on the driver before each choice (fault injection)
+	AfterStep      func()            // called on the driver after each step settles (online invariants)
+	stopReq        atomic.Bool
+	finished       atomic.Bool
+	tickers        []*time.Ticker
+	Idles          int
+	Hazards        []string // un-instrumented blocking detected (tooling trouble, not a verdict)
+	ForcedAdvances int
+	elapsed        time.Duration
+	start          time.Time
+	h              uint64
+	logBuf         []string
+	Counters       map[string]int
+	fsHits         int
+	CrashAtFS      int // crash the calling node at the N-th FS point (1-based; 0: never)
+	FSCrashed      string
+	FSNames        []string
+	RecordFS       bool
 }
 
 var active atomic.Pointer[Sim]
@@ -159,33 +164,16 @@ func New(dec *Decider, cfg Config) *Sim {
 	return s
 }
 
-func goid() int64 {
-	var buf [48]byte
-	n := runtime.Stack(buf[:], false)
-	// "goroutine 123 ["
-	var id int64
-	for i := 10; i < n; i++ {
-		c := buf[i]
-		if c < '0' || c > '9' {
-			break
-		}
-		id = id*10 + int64(c-'0')
-	}
-	return id
-}
-
-// Cur returns the calling goroutine's task, or nil when the caller is not a
-// simulated task (or no simulation is active).
+// Cur returns the running task, or nil when no simulation is active. Exactly one
+// task executes system-under-test code at any time (the one the driver released
+// last), so the caller of any instrumented construct is that task; tasks woken
+// inside a blocking wrapper use the identity they captured before blocking.
 func Cur() *Task {
 	s := active.Load()
 	if s == nil {
 		return nil
 	}
-	g := goid()
-	s.mu.Lock()
-	t := s.byGid[g]
-	s.mu.Unlock()
-	return t
+	return s.cur
 }
 
 func (s *Sim) poke() {
@@ -212,7 +200,7 @@ func (s *Sim) Logf(format string, a ...any) {
 	s.mu.Lock()
 	s.mix(hh.Sum64())
 	if s.cfg.Verbose {
-		s.logBuf = append(s.logBuf, fmt.Sprintf("%6d %8.3fs %s", s.Steps, time.Since(s.start).Seconds(), line))
+		s.logBuf = append(s.logBuf, fmt.Sprintf("%6d %8.3fs %s", s.Steps, s.Now().Seconds(), line))
 	}
 	s.mu.Unlock()
 }
@@ -228,11 +216,31 @@ func (s *Sim) Count(name string) {
 }
 
 // Now is the simulated time since the start of the run.
-func (s *Sim) Now() time.Duration { return time.Since(s.start) }
+func (s *Sim) Now() time.Duration {
+	if s.finished.Load() {
+		return s.elapsed
+	}
+	return time.Since(s.start)
+}
 
 // Choose draws from the decision stream. Only the running task or the driver may call it.
 func (s *Sim) Choose(n int, label string) int {
 	return s.Dec.Choose(n)
+}
+
+// Quiet switches optional scheduling points (lock acquisitions, non-blocking
+// channel operations) off and on again for the running task: harness-side
+// verification reads do not need to be interleaved. Calls nest.
+func (s *Sim) Quiet(on bool) {
+	t := s.cur
+	if t == nil {
+		return
+	}
+	if on {
+		t.quiet++
+	} else {
+		t.quiet--
+	}
 }
 
 // Stop asks the driver to end the run after the current step.
@@ -247,17 +255,10 @@ func (s *Sim) newTask(name string, node int) *Task {
 	return t
 }
 
-func (t *Task) bind() {
-	g := goid()
-	t.gid = g
-	t.s.mu.Lock()
-	t.s.byGid[g] = t
-	t.s.mu.Unlock()
-}
+func (t *Task) bind() {}
 
 func (t *Task) unbind() {
 	t.s.mu.Lock()
-	delete(t.s.byGid, t.gid)
 	t.state = stDone
 	t.s.mu.Unlock()
 	t.s.poke()
@@ -267,6 +268,9 @@ func (t *Task) setState(st int32, why string) {
 	t.s.mu.Lock()
 	t.state = st
 	t.why = why
+	if t.s.cfg.Profile {
+		t.s.Counters["park."+why]++
+	}
 	t.s.mu.Unlock()
 }
 
@@ -378,6 +382,9 @@ func (t *Task) yield(why string) {
 	if s.killedF.Load() {
 		panic(killed)
 	}
+	if t.quiet > 0 {
+		return
+	}
 	if s.cfg.StickyPct > 0 && !s.stopReq.Load() {
 		// local decline: keep running without a hand-off (one draw, no park)
 		if s.Dec.Choose(100) < s.cfg.StickyPct {
@@ -429,7 +436,7 @@ func (t *Task) lockYield() {
 	if s.killedF.Load() {
 		panic(killed)
 	}
-	if s.cfg.NoPreempt {
+	if s.cfg.NoPreempt || t.quiet > 0 {
 		return
 	}
 	if s.cfg.LockYield < 100 {
@@ -819,6 +826,7 @@ func (s *Sim) Run(main func()) {
 	}
 	s.start = time.Now()
 	defer func() {
+		s.elapsed = time.Since(s.start)
 		s.finished.Store(true)
 		s.mu.Lock()
 		for _, tk := range s.tickers {
@@ -830,8 +838,23 @@ func (s *Sim) Run(main func()) {
 	horizon := s.start.Add(s.cfg.Horizon)
 	s.GoNode(0, "main", main)
 	idleSpins := 0
+	sinceIdle := 0
+	quantum := time.Millisecond
+	spinSteps := s.cfg.SpinSteps
+	if spinSteps == 0 {
+		spinSteps = 3000
+	}
 	for {
 		synctest.Wait()
+		if c := s.cur; c != nil && c.state == stRunning && !s.finished.Load() {
+			// the released task neither parked nor finished: it is blocked inside
+			// un-instrumented code, which the simulator cannot schedule deterministically
+			s.Hazards = append(s.Hazards, fmt.Sprintf("task %s blocked outside simrt at step %d", c.Name, s.Steps))
+			s.mu.Lock()
+			c.state = stBlocked
+			c.why = "uninstrumented"
+			s.mu.Unlock()
+		}
 		if s.stopReq.Load() {
 			return
 		}
@@ -867,6 +890,8 @@ func (s *Sim) Run(main func()) {
 				wait = nextT.Sub(now)
 			}
 			s.Idles++
+			sinceIdle = 0
+			quantum = time.Millisecond
 			tm := time.NewTimer(wait)
 			select {
 			case <-s.wake:
@@ -876,6 +901,18 @@ func (s *Sim) Run(main func()) {
 			continue
 		}
 		idleSpins = 0
+		sinceIdle++
+		if sinceIdle >= spinSteps {
+			// Busy-waiting code never lets the system go idle, so the simulated clock would
+			// stand still for ever. Spinning takes time in the real world: let some pass.
+			sinceIdle = 0
+			s.ForcedAdvances++
+			time.Sleep(quantum)
+			if quantum < 5*time.Second {
+				quantum *= 2
+			}
+			continue
+		}
 		s.Steps++
 		if s.Steps > s.cfg.MaxSteps {
 			s.StepLimitHit = true
